@@ -16,6 +16,9 @@ def oracle_c01(e, out):
   e.check('C01.well_formed', not pr, info=pr[:4])
   pr = oracles.dtype_consistent(out.model)
   e.check('C01.operand_dtypes_consistent', not pr, info=pr[:4])
+  pr = oracles.qparams_prepareable(out.model)
+  e.check('C01.quantization_parameters_accepted_by_interpreter_builder',
+          not pr, info=pr[:4])
 
 
 def oracle_c02(e, out):
@@ -43,7 +46,8 @@ ORACLES = {'C01': oracle_c01, 'C02': oracle_c02, 'C03': oracle_c03,
            'C08': oracle_c08}
 CONCRETE = {
     'C01': lambda out: [] if out.raised is not None else (
-        oracles.well_formed(out.model) + oracles.dtype_consistent(out.model)),
+        oracles.well_formed(out.model) + oracles.dtype_consistent(out.model)
+        + oracles.qparams_prepareable(out.model)),
     'C02': lambda out: [] if out.raised is not None else oracles.skeleton_iso(
         out.input_model, out.model, P.io_quantized(out)),
     'C03': lambda out: [] if out.raised is not None else oracles.modes(
